@@ -160,7 +160,7 @@ theorem Inv.setCur {C W : List Nat} {top : Option Nat} {s : State} (h : Inv C W 
     entry — except the ones listed in `Wl'` -/
 theorem Inv.setTables {C Wl Wl' : List Nat} {top : Option Nat} {s : State} (h : Inv C Wl top s)
     (N' W' : Tbl) (wfN : Tbl.WF N') (wfW : Tbl.WF W')
-    (subN : Tbl.Sub N' s.notify) (subW : Tbl.Sub W' s.waitFor) (mir : Mirror N' W')
+    (subN : Tbl.Sub N' s.notify) (subW : Tbl.Sub W' s.waitFor) (mir : TblMirror N' W')
     (hWl : ∀ x ∈ Wl, x ∈ Wl')
     (hW : ∀ x th, thFind s.threads x = some th → th.ts = .waiting → Tbl.hasOwner s.waitFor x = true →
       x ∈ Wl' ∨ Tbl.hasOwner W' x = true) :
@@ -182,7 +182,7 @@ theorem Inv.setTables {C Wl Wl' : List Nat} {top : Option Nat} {s : State} (h : 
       · exact Or.inr (fun n hn => e n (subW.ne_nil hn))
 
 /-- a thread that no table mentions and that is not `timing` dies (`dead := true`) or its record goes -/
-theorem notMentioned {s : State} (hm : Mirror s.notify s.waitFor) (hwN : Tbl.WF s.notify) (hwW : Tbl.WF s.waitFor)
+theorem notMentioned {s : State} (hm : TblMirror s.notify s.waitFor) (hwN : Tbl.WF s.notify) (hwW : Tbl.WF s.waitFor)
     {t : Nat} (h1 : Tbl.hasOwner s.notify t = false) (h2 : Tbl.hasOwner s.waitFor t = false) :
     ∀ o n x, x ∈ Tbl.getD s.notify (o, n) → o ≠ t ∧ x ≠ t := by
   intro o n x hx
